@@ -39,7 +39,14 @@ class BaseGotranODECodePrinter(StrPrinter):
             "!=": "Ne",
         }
         relop = relop2str[expr.rel_op]
+        if relop == "Ne":
+            # The grammar has no Ne; write it with what it has
+            return f"Not(Eq({lhs}, {rhs}))"
         return f"{relop}({lhs}, {rhs})"
+
+    def _print_Exp1(self, expr):
+        # sympy turns exp(1) into the constant E, which is not part of the grammar
+        return "exp(1)"
 
     def _print_Or(self, expr):
         return f"Or({', '.join(self._print(a) for a in expr.args)})"
